@@ -319,6 +319,16 @@ func (g *Gen) buildTx() *Step {
 	}
 	var msgs []sdk.Msg
 	note := ""
+	// impersonation: the messages are what another account could rightfully send (built as that
+	// account, from its view of the state), but the tx is signed by this one. Signature
+	// verification is what stops it - unless a message's GetSigners names somebody else than the
+	// account its handler acts for. Half of the time the victim's address is spelled in upper case.
+	signer := a
+	impersonate := mode == ModeHostile && !a.Gov && g.R.Chance(0.15)
+	if impersonate {
+		a = g.otherUser(a)
+		mode = ModeValid
+	}
 	// several messages of one kind built from the same view: each is fine alone, together they
 	// compete for the same balance / fee / order / sequence number
 	sameKind := nm > 1 && g.R.Chance(0.4)
@@ -341,7 +351,18 @@ func (g *Gen) buildTx() *Step {
 		if first == "" {
 			first = kind
 		}
-		if !strings.HasPrefix(kind, "ICA") && g.R.Chance(p.StyleRate*0.4) {
+		if impersonate {
+			g.W.Probe("hostile_impersonation_tx")
+			if g.R.Chance(0.5) {
+				up := strings.ToUpper(a.Addr)
+				walkStrings(reflect.ValueOf(m), func(s string) string {
+					if s == a.Addr {
+						return up
+					}
+					return s
+				})
+			}
+		} else if g.R.Chance(p.StyleRate * 0.4) {
 			g.spellOneAddressUpper(m)
 		}
 		if mode != ModeValid && g.R.Chance(0.12) {
@@ -367,6 +388,10 @@ func (g *Gen) buildTx() *Step {
 	}
 	if stale {
 		note += "/stale"
+	}
+	if impersonate {
+		note += "/impersonating"
+		a = signer
 	}
 	ts := &TxStep{Signer: a.Addr, Note: note}
 	for _, m := range msgs {
@@ -485,7 +510,30 @@ func (g *Gen) misdirectOneID(m sdk.Msg) {
 // missing sub-message. (What a keeper does with such a message only matters if validation lets
 // it through - which is exactly what a weakened validation rule does.)
 func (g *Gen) malformOneField(m sdk.Msg) {
-	switch g.R.Intn(4) {
+	switch g.R.Intn(5) {
+	case 4: // white space: instead of, before or after the value of some text field
+		n, k, i := 0, 0, 0
+		walkStrings(reflect.ValueOf(m), func(s string) string { n++; return s })
+		if n == 0 {
+			return
+		}
+		k = g.R.Intn(n)
+		walkStrings(reflect.ValueOf(m), func(s string) string {
+			if i++; i-1 == k {
+				g.W.Probe("hostile_white_space_in_text_field")
+				switch g.R.Intn(4) {
+				case 0:
+					return "  "
+				case 1:
+					return " " + s
+				case 2:
+					return s + "\t"
+				default:
+					return "\n"
+				}
+			}
+			return s
+		})
 	case 0: // an address
 		n, k, i := 0, 0, 0
 		isAddr := func(s string) bool {
